@@ -205,8 +205,16 @@ class SymArray:
         return _np.array(vals, dtype=self.dtype).reshape(self.shape)
 
     def __array__(self, dtype=None, copy=None):
-        a = self.to_numpy()
-        return a if dtype is None else a.astype(dtype)
+        if self.is_concrete():
+            a = self.to_numpy()
+            return a if dtype is None else a.astype(dtype)
+        # symbolic content handed to a container (pandas): an object array of the symbolic cells
+        if dtype is not None and _np.dtype(dtype) != object:
+            raise Unsupported("symbolic array handed to real numpy / C code with a numeric dtype")
+        out = _np.empty(self.size, dtype=object)
+        for i, e in enumerate(self.elems()):
+            out[i] = e
+        return out.reshape(self.shape)
 
     def __repr__(self):
         return f"SymArray(shape={self.shape}, dtype={self.dtype}, {self.elems()[:6]}...)"
@@ -605,6 +613,36 @@ class MaskedSelection:
     def values(self):
         return self._vals
 
+    def _conc(self):
+        """Python needs the selection itself (len, iteration): fork on every mask element."""
+        if getattr(self, "_c", None) is None:
+            keep = [v for c, v in zip(self.mask.elems(), self._vals) if builtins.bool(_truthy(c))]
+            self._c = SymArray.from_elems(keep, (len(keep),), self.dtype if self.dtype is not None else float)
+        return self._c
+
+    def __len__(self):
+        return len(self._conc())
+
+    def __iter__(self):
+        return iter(self._conc())
+
+    def __getitem__(self, k):
+        return self._conc()[k]
+
+    def astype(self, dtype, **kw):
+        return self._conc().astype(dtype)
+
+    def __vx_array__(self):
+        return self._conc()
+
+    @property
+    def shape(self):
+        return self._conc().shape
+
+    @property
+    def ndim(self):
+        return 1
+
     def _bin(self, o, f):
         if isinstance(o, MaskedSelection):
             if not _same_mask(o.mask, self.mask):
@@ -691,6 +729,9 @@ def _not(e):
 def _ghost_of(x):
     if hasattr(x, "__vx_array__"):
         x = x.__vx_array__()
+    if isinstance(x, _np.ndarray) and x.dtype == object:
+        flat = [_ghost_scalar(e) for e in x.ravel().tolist()]
+        return _np.array(flat if flat else [], dtype=None if flat else float).reshape(x.shape)
     if isinstance(x, SymArray):
         return x.ghost
     if isinstance(x, MaskedSelection):
@@ -959,7 +1000,10 @@ def array(obj, dtype=None, copy=True, ndmin=0, **kw):
     elif isinstance(obj, MaskedSelection):
         raise Unsupported("np.array of a masked selection")
     else:
-        g = _np.array(_ghost_nested(obj), dtype=dtype)
+        if isinstance(obj, _np.ndarray) and obj.dtype == object:
+            g = _np.array(_ghost_of(obj), dtype=dtype)
+        else:
+            g = _np.array(_ghost_nested(obj), dtype=dtype)
         vals: list = []
         _flatten_nested(obj, vals)
         if len(vals) != g.size:
@@ -1278,7 +1322,9 @@ def where(c, a=None, b=None):
         c = asarray(c)
         if c.is_concrete():
             return _np.where(c.to_numpy())
-        raise Unsupported("np.where(cond) with a symbolic condition")
+        # index form with a symbolic condition: fork on every element (2**size concrete masks at most)
+        mask = _np.array([builtins.bool(_truthy(e)) for e in c.elems()], dtype=bool).reshape(c.shape)
+        return _np.where(mask)
     gc, ga, gb = _ghost_of(c), _ghost_of(a), _ghost_of(b)
     gr = _np.where(gc, ga, gb)
     vc, ic = _values_and_idx(c)
